@@ -107,7 +107,9 @@ func c08GenCase(t *rapid.T) c07Case {
 	r, sender := c08GenRoom(t, version)
 	content := c08GenNewPL(t, version, r, sender)
 	b := c07Build(r)
-	return c07Finish(version, b, raEv{Type: "m.room.power_levels", Sender: sender, StateKey: raSK(""), Content: content, Prev: []string{evFakeID(t, version, "prev")}})
+	cs := c07Finish(version, b, raEv{Type: "m.room.power_levels", Sender: sender, StateKey: raSK(""), Content: content, Prev: []string{evFakeID(t, version, "prev")}})
+	cs.RedactedState = rapid.IntRange(0, 9).Draw(t, "redactedState") == 0
+	return cs
 }
 
 // c08Level reads a level for the invariant: integer literals only; anything else is "not an
@@ -283,13 +285,24 @@ func c08Check(ctx *vfCtx, c c07Case) {
 			ctx.Unjudged("generator: malformed auth event")
 			return
 		}
-		trees = append(trees, t)
 		p, err := raParsePDU(c.Version, t)
 		if err != nil {
 			ctx.Unjudged("generator: auth event does not parse")
 			return
 		}
+		if c.RedactedState && evStr(t, "type") != "m.room.create" {
+			// the current events have been redacted: what they still say (levels and thresholds survive
+			// redaction) is what the sender is measured against
+			t = rredact(c.Version, t)
+			if vfCatch(ctx, "C08/redact-state", func() { p.Redact() }) {
+				return
+			}
+		}
+		trees = append(trees, t)
 		pdus = append(pdus, p)
+	}
+	if c.RedactedState {
+		ctx.Class("state-of-redacted-events")
 	}
 	st := raBuildState(c.Version, trees)
 	if why := raUnjudged(st); why != "" {
